@@ -170,6 +170,14 @@ pub struct CaseCtx<'a> {
     pub rng: Rng,
     pub rep: &'a mut Report,
     pub verbose: bool,
+    /// set by an engine when the case contains input that no property promises to be accepted
+    /// (strings with NUL or non-ASCII characters, zero-sized matrices, zero-byte elements …): a deliberate
+    /// refusal there is not counted towards the workload-erosion tripwire
+    pub fringe: bool,
+    /// set by an engine when the property under check promises that the input of this case is accepted
+    /// (C07 lengths below 2^28, C08 integers, C10 descriptors inside the stated domain): any panic is a
+    /// violation
+    pub must_accept: bool,
 }
 
 impl<'a> CaseCtx<'a> {
@@ -230,18 +238,67 @@ pub fn catches<R>(f: impl FnOnce() -> R) -> Result<R, String> {
     }
 }
 
+/// Properties whose statement promises that every input of their workload is accepted (all lengths
+/// below 2^28, all integers, all well-formed names, all descriptors inside the stated domain, all
+/// in-range cells and operations, all well-formed ids, all accumulator operations): their engines
+/// generate nothing else outside explicitly caught refusal probes, so any escaped panic is a violation.
+fn promises_acceptance(cfg: &Cfg) -> bool {
+    matches!(cfg.prop.as_str(), "C07" | "C08" | "C09" | "C10" | "C12" | "C13" | "C16" | "C17")
+}
+
+/// Is this panic message one of the language's / standard library's run-time failures (as opposed to
+/// a refusal the crate's author wrote down)?
+pub fn is_runtime_failure(p: &str) -> bool {
+    const PATTERNS: [&str; 24] = [
+        "index out of bounds",
+        "attempt to ", // add/subtract/multiply/negate/shift with overflow, divide by zero, remainder
+        "called `Option::unwrap()` on a `None` value",
+        "out of range for slice",
+        "range start index",
+        "range end index",
+        "slice index starts at",
+        "is not a char boundary",
+        "byte index",
+        "source slice length",
+        "destination and source slices have different lengths",
+        "removal index",
+        "insertion index",
+        "swap_remove index",
+        "capacity overflow",
+        "internal error: entered unreachable code",
+        "not implemented",
+        "not yet implemented",
+        "mid > len",
+        "explicit panic",
+        "chunk size must be non-zero",
+        "already borrowed",
+        "already mutably borrowed",
+        "memory allocation",
+    ];
+    if PATTERNS.iter().any(|q| p.contains(q)) {
+        return true;
+    }
+    // `x.try_into().unwrap()` / `u16::try_from(x).unwrap()` is an idiom for refusing an oversize value
+    p.contains("called `Result::unwrap()` on an `Err` value") && !p.contains("TryFromIntError")
+}
+
 /// A panic that escaped a workload case (the engines catch the panics they expect).
-/// * An *internal* failure (index/slice out of bounds, arithmetic overflow, unwrap on None…) on an
-///   in-domain step is a violation of the property under check: the operation was not carried out.
-/// * An `assert!`-style refusal is the crate declining an argument; where acceptance is part of the
-///   property (C12, C13, C18) the engines catch and judge it themselves. Elsewhere the history simply
-///   ends there: it is counted, and if such refusals become common the run is inconclusive (the
-///   workload no longer exercises what it promises) — never a violation.
+/// * A *run-time failure* (index/slice out of bounds, arithmetic overflow, unwrap on None …), or any
+///   panic raised outside the crate's own source (the harness reading an image that is not what its
+///   header says, the allocator), on an in-domain step is a violation of the property under check: the
+///   operation was not carried out.
+/// * A *deliberate refusal* — `assert!`/`assert_eq!` with or without a message, `panic!("…")`,
+///   `.expect("…")`, raised in `/repo/src` — is the crate declining an argument. Where acceptance is
+///   part of the property the engines catch and judge it themselves (C09, C12, C13, C16, C18) or mark the
+///   case `must_accept` (C07, C08, C10). Elsewhere the history simply ends there: it is counted, and if
+///   such refusals become common among cases without fringe input the run is inconclusive (the workload
+///   no longer exercises what it promises) — never a violation.
 fn escaped_panic(cx: &mut CaseCtx, p: String) {
-    if p.starts_with("assertion") {
-        cx.rep.cov("history_ended_by_argument_assertion");
+    let in_crate = p.rsplit(" @ ").next().map(|loc| loc.starts_with("/repo/")).unwrap_or(false);
+    if in_crate && !cx.must_accept && !is_runtime_failure(&p) {
+        cx.rep.cov(if cx.fringe { "history_with_fringe_input_ended_by_refusal" } else { "history_ended_by_argument_assertion" });
         if cx.verbose {
-            eprintln!("[replay] case ended by an argument assertion: {}", p);
+            eprintln!("[replay] case ended by a deliberate refusal of the crate: {}", p);
         }
     } else {
         cx.violation(format!("unexpected panic on an in-domain workload step: {}", p), J::Null);
@@ -261,7 +318,7 @@ where
             return total;
         }
         let mut rep = Report::default();
-        let mut cx = CaseCtx { cfg, stream, idx: *i, rng: Rng::for_case(cfg.seed, stream, *i), rep: &mut rep, verbose: true };
+        let mut cx = CaseCtx { cfg, stream, idx: *i, rng: Rng::for_case(cfg.seed, stream, *i), rep: &mut rep, verbose: true, fringe: false, must_accept: promises_acceptance(cfg) };
         if let Err(p) = catches(|| f(&mut cx)) {
             escaped_panic(&mut cx, p);
         }
@@ -275,7 +332,7 @@ where
         for j in 0..k {
             // offset 1: index 0 of a stream is often its deliberately largest case
             let idx = (j * (n / k) + 1).min(n - 1);
-            let mut cx = CaseCtx { cfg, stream, idx, rng: Rng::for_case(cfg.seed, stream, idx), rep: &mut rep, verbose: false };
+            let mut cx = CaseCtx { cfg, stream, idx, rng: Rng::for_case(cfg.seed, stream, idx), rep: &mut rep, verbose: false, fringe: false, must_accept: promises_acceptance(cfg) };
             if let Err(p) = catches(|| f(&mut cx)) {
                 escaped_panic(&mut cx, p);
             }
@@ -297,7 +354,7 @@ where
                     }
                     for idx in start..(start + chunk).min(n) {
                         let mut cx =
-                            CaseCtx { cfg, stream, idx, rng: Rng::for_case(cfg.seed, stream, idx), rep: &mut rep, verbose: false };
+                            CaseCtx { cfg, stream, idx, rng: Rng::for_case(cfg.seed, stream, idx), rep: &mut rep, verbose: false, fringe: false, must_accept: promises_acceptance(cfg) };
                         if let Err(p) = catches(|| f(&mut cx)) {
                             escaped_panic(&mut cx, p);
                         }
@@ -310,8 +367,8 @@ where
     total.merge(merged.into_inner().unwrap());
     total.cov_n(&format!("stream_cases:{}", stream), n);
     let refused = total.cov.get("history_ended_by_argument_assertion").copied().unwrap_or(0);
-    if n >= 50 && refused * 50 > n {
-        total.inconclusive(format!("stream {}: {} of {} cases ended by an argument assertion of the crate; the workload no longer covers what it promises", stream, refused, n));
+    if n >= 50 && refused * 20 > n {
+        total.inconclusive(format!("stream {}: {} of {} cases without fringe input ended by a deliberate refusal of the crate (> 5 %); the workload no longer covers what it promises", stream, refused, n));
     }
     total
 }
